@@ -1227,7 +1227,16 @@ class Engine:
         return from_z3(self.uf('attr_' + attr, ['U'], t)(term), tt)
 
     def ev_BoolOp(self, node, st):
-        vals = [self.truthy(self.ev(v, st)) for v in node.values]
+        # short-circuit: operand k is evaluated (and its safety obligations are generated) under the assumption
+        # that the previous operands did not already decide the result
+        s2 = State(st.env, list(st.pc))
+        s2.decided = st.decided
+        s2.trace = st.trace
+        vals = []
+        for v in node.values:
+            t = self.truthy(self.ev(v, s2))
+            vals.append(t)
+            s2.pc.append(t if isinstance(node.op, ast.And) else z3.Not(t))
         return z3.And(*vals) if isinstance(node.op, ast.And) else z3.Or(*vals)
 
     def ev_UnaryOp(self, node, st):
